@@ -73,9 +73,7 @@ def check_dispatch_table(facts, rep, cmd, int_ty='i64'):
                 T = e.fn['args'][0] if e.fn and e.fn.get('args') else '?'
                 inst = 'ykh %s|-t %s vars %s' % (cmd, ct, pv)
                 if ct is None or pv is None:
-                    rep.violation('E10.R6-dispatch-table', '%s|unconstrained run::<%s>' % (b.defp, T),
-                                  '%s: App::<%s>::run is reached without a decision on (c_type, poly vars)' % (b.defp, T),
-                                  where='%s:%d' % (b.file, e.line))
+                    rep.indet('E10.R6: %s reaches App::<%s>::run on a path whose decision on (c_type, poly vars) was not read' % (b.defp, T))
                     continue
                 want = wrap(pv, ring(ct, int_ty))
                 found[(ct, pv)] = T
@@ -106,8 +104,29 @@ def run(facts, rep, int_ty='i64', repo='/repo'):
         callers = sorted(rcg.get(d, ()))
         inst = '%s|callers' % d
         okc = [c for c in callers if re.match(r'ykh::app::app::App::dispatch::\{closure#\d+\}$', c)]
-        if callers and callers == okc:
-            guard_closure = okc[0]
+        # a private function that is itself only called from inside the guard closure (or from such functions) is inside it
+        inside = set(okc)
+        frontier = [c for c in callers if c not in inside]
+        ok_all = bool(callers)
+        seen_ = set()
+        while frontier and ok_all:
+            c = frontier.pop()
+            if c in seen_:
+                continue
+            seen_.add(c)
+            cb_ = facts.bodies.get(c)
+            cc = sorted(rcg.get(c, ()))
+            if cb_ is None or cb_.d.get('vis', 'pub') == 'pub' and cb_.kind != 'Closure' or not cc:
+                ok_all = False
+                break
+            for x in cc:
+                if re.match(r'ykh::app::app::App::dispatch::\{closure#\d+\}$', x):
+                    inside.add(x)
+                    okc = okc or [x]
+                elif x not in seen_:
+                    frontier.append(x)
+        if callers and (callers == okc or (ok_all and okc)):
+            guard_closure = guard_closure or sorted(inside & set(x for x in inside if 'App::dispatch::{closure' in x))[0]
             rep.ok('E10.R1-inside-guard', inst, 'only %s' % okc[0])
         else:
             rep.violation('E10.R1-inside-guard', inst, '%s is called from %s; it must only run inside the closure given to guard_panic' % (d, callers),
@@ -237,9 +256,10 @@ def run(facts, rep, int_ty='i64', repo='/repo'):
                     else:
                         errp += 1
         inst = 'main|table only on Ok, Err => exit(1)'
-        if bad or okp == 0 or errp == 0:
-            rep.violation('E10.R3-error-exit', inst, 'ykh main: %s' % ('; '.join(sorted(set(bad))) or 'Ok/Err arms not recognised (%d/%d)' % (okp, errp)),
-                          where=m.where())
+        if bad:
+            rep.violation('E10.R3-error-exit', inst, 'ykh main: %s' % '; '.join(sorted(set(bad))), where=m.where())
+        elif okp == 0 or errp == 0:
+            rep.indet('E10.R3: Ok / Err arms of main not recognised (%d / %d)' % (okp, errp))
         else:
             rep.ok('E10.R3-error-exit', inst, '%d Ok path(s) print, %d Err path(s) exit non-zero' % (okp, errp))
     # R4
